@@ -189,6 +189,48 @@ fn ladder(kind: usize, d: usize) -> Option<(&'static str, String)> {
   })
 }
 
+/// Width ladders: one construct repeated `n` times side by side (the language caps several of
+/// them at 16; the cap must be a diagnostic, never a crash).
+fn width_programs(n: usize) -> Vec<(&'static str, String)> {
+  let ids = |p: &str| (0..n).map(|i| format!("{p}{i}")).collect::<Vec<_>>();
+  let a = ids("a");
+  let rep = |x: &str| vec![x.to_string(); n].join(", ");
+  let sum = if n == 0 { "0".to_string() } else { a.join(" + ") };
+  let typed = a.iter().map(|x| format!("{x}: int")).collect::<Vec<_>>().join(", ");
+  let vals = a.iter().map(|x| format!("val {x}: int")).collect::<Vec<_>>().join(", ");
+  let tps = (0..n).map(|i| format!("T{i}")).collect::<Vec<_>>().join(", ");
+  let lt = |x: &str| if n == 0 { String::new() } else { format!("<{x}>") };
+  vec![
+    ("tuple-of-identifiers", format!("class Main {{ function f(a: int): unit = {{ let t = ({}); }} }}", rep("a"))),
+    ("tuple-of-identifiers-then-arrow", format!("class Main {{ function f(a: int): unit = {{ let t = ({}) -> 1; }} }}", a.join(", "))),
+    ("tuple-of-literals", format!("class Main {{ function f(a: int): unit = {{ let t = ({}); }} }}", rep("1"))),
+    ("tuple-identifiers-then-expression", format!("class Main {{ function f(a: int): unit = {{ let t = ({}, a + 1); }} }}", rep("a"))),
+    ("tuple-identifiers-then-literal", format!("class Main {{ function f(a: int): unit = {{ let t = ({}, 1); }} }}", rep("a"))),
+    ("tuple-pattern", format!("class Main {{ function f(t: ({})): unit = {{ let ({}) = t; }} }}", rep("int"), a.join(", "))),
+    ("tuple-type", format!("class Main {{ function f(t: ({})): unit = {{ }} }}", rep("int"))),
+    ("function-parameters", format!("class Main {{ function f({typed}): int = {sum} function g(): int = Main.f({}) }}", rep("1"))),
+    ("lambda-parameters-annotated", format!("class Main {{ function g(): unit = {{ let f = ({typed}) -> {sum}; let _ = f({}); }} }}", rep("1"))),
+    ("lambda-parameters-mixed", format!("class Main {{ function g(h: ({}, int) -> int): unit = {{ }} function k(): unit = Main.g(({}, z: int) -> z) }}", rep("int"), a.join(", "))),
+    ("lambda-parameters-inferred", format!("class Main {{ function g(h: ({}) -> int): unit = {{ }} function k(): unit = Main.g(({}) -> 1) }}", rep("int"), a.join(", "))),
+    ("function-type", format!("class Main {{ function g(h: ({}) -> int): unit = {{ }} }}", rep("int"))),
+    ("struct-fields", format!("class S({vals}) {{ function mk(): S = S.init({}) }}", rep("1"))),
+    ("struct-pattern", format!("class S({vals}) {{ function g(s: S): unit = {{ let {{ {} }} = s; }} }}", a.join(", "))),
+    ("variants", format!("class E({}) {{ function g(e: E): int = match e {{ {} }} }}", (0..n).map(|i| format!("V{i}(int)")).collect::<Vec<_>>().join(", "), (0..n).map(|i| format!("V{i}(x) -> x")).collect::<Vec<_>>().join(", "))),
+    ("variant-payload", format!("class E(V({}), W) {{ function mk(): E = E.V({}) function g(e: E): int = match e {{ V({}) -> 1, W -> 0 }} }}", rep("int"), rep("1"), a.join(", "))),
+    ("class-type-parameters", format!("class C{}(val x: int) {{ function f(c: C{}): unit = {{ }} }}", lt(&tps), lt(&rep("int")))),
+    ("function-type-parameters", format!("class Main {{ function {} f(): unit = {{ }} function g(): unit = Main.f{}() }}", lt(&tps), lt(&rep("int")))),
+    ("or-pattern-alternatives", format!("class E({}, Z) {{ function g(e: E): int = match e {{ {} -> 1, Z -> 0 }} }}", (0..n).map(|i| format!("V{i}")).collect::<Vec<_>>().join(", "), if n == 0 { "_".to_string() } else { (0..n).map(|i| format!("V{i}")).collect::<Vec<_>>().join(" | ") })),
+    ("imported-names", format!("import {{ {} }} from M\nclass Main {{ }}", (0..n).map(|i| format!("A{i}")).collect::<Vec<_>>().join(", "))),
+    ("super-types", format!("interface I0 {{ }} class Main{} {{ }}", if n == 0 { String::new() } else { format!(" : {}", rep("I0")) })),
+    ("call-arguments", format!("class Main {{ function f(a: int): int = a function g(): int = Main.f({}) }}", rep("1"))),
+    ("block-statements", format!("class Main {{ function g(): int = {{ {} 0 }} }}", (0..n).map(|i| format!("let a{i} = {i};")).collect::<Vec<_>>().join(" "))),
+    ("match-arms-wildcards", format!("class Main {{ function g(x: int): int = match x {{ {} }} }}", vec!["_ -> 0"; n.max(1)].join(", "))),
+    ("closure-captures", format!("class Main {{ function f({typed}): () -> int = () -> {sum} }}")),
+    ("members", format!("class Main {{ {} }}", (0..n).map(|i| format!("function f{i}(): int = {i}")).collect::<Vec<_>>().join(" "))),
+    ("classes", (0..n).map(|i| format!("class C{i} {{ }}")).collect::<Vec<_>>().join(" ")),
+  ]
+}
+
 fn worker_main(args: &[String]) -> ! {
   // forked worker: `--worker ladder <kind> <depth>`; runs on the main thread (8 MiB, like the CLI)
   let kind: usize = args[2].parse().unwrap();
@@ -415,6 +457,21 @@ fn main() {
   });
   space.insert("ladder_rungs".into(), json!(ladder_jobs.len()));
 
+  // ---- 5. width ladders ----
+  let widths: Vec<usize> = if run.quick() { vec![0, 1, 2, 15, 16, 17, 18, 33] } else { (0..=40).chain([64, 100, 255, 256, 257, 1000]).collect() };
+  let width_jobs: Vec<(usize, &'static str, String)> =
+    widths.iter().flat_map(|n| width_programs(*n).into_iter().map(move |(k, t)| (*n, k, t))).collect();
+  space.insert("width_ladder_programs".into(), json!(width_jobs.len()));
+  let width_accepted = AtomicU64::new(0);
+  width_jobs.par_iter().for_each(|(n, kind, t)| {
+    let r = timed(t);
+    if let Ok(true) = &r {
+      width_accepted.fetch_add(1, Ordering::Relaxed);
+    }
+    report(t, &format!("width ladder {kind} x{n}"), r)
+  });
+  space.insert("width_ladder_programs_accepted_by_compiler".into(), json!(width_accepted.load(Ordering::Relaxed)));
+
   let samples: Vec<Value> = spaced_samples(&soups, 3)
     .into_iter()
     .map(|s| json!({"kind":"token soup","input": s}))
@@ -425,7 +482,7 @@ fn main() {
     json!({
       "evaluations": evaluated.load(Ordering::Relaxed),
       "distinct_nontrivial": n_shapes,
-      "rule": "inputs: all token strings up to the length bound over the class alphabet in 3 contexts; delete/duplicate/replace-by-class at every token, truncation at every byte, hostile-character insertion at every token start of the smallest corpus files; all ordered pairs of 16 two-module snippets; 14 nesting ladders in forked workers. distinct_nontrivial = distinct token-kind sequences among the soups that ran to completion",
+      "rule": "inputs: all token strings up to the length bound over the class alphabet in 3 contexts; delete/duplicate/replace-by-class at every token, truncation at every byte, hostile-character insertion at every token start of the smallest corpus files; all ordered pairs of 16 two-module snippets; 14 nesting ladders in forked workers; 27 width ladders (one construct repeated n times side by side, n across the 16-element caps). distinct_nontrivial = distinct token-kind sequences among the soups that ran to completion",
       "samples": samples,
       "space": space,
       "accepted_by_compiler": accepted.load(Ordering::Relaxed),
